@@ -46,6 +46,10 @@ INVALID_AFTER_COMMON = [
     ("max-time-negative", dict(max_time=-1.0)),
     ("learning-rate", dict(autotuning=True, learning_rate=0.2)),
     ("stepsize-negative", dict(stepsize=-0.5)),
+    # noticed only when the loop is set up, after the file has been opened
+    ("progressbar-flag-array", dict(disable_progressbar=np.array([True, True]))),
+    # Ctrl-C while the first misfit is evaluated: a start that fails with a BaseException
+    ("interrupt-in-first-misfit", "interrupt"),
 ]
 INVALID_AFTER_HMC = [
     ("amount-of-steps-float", dict(amount_of_steps=2.5)),
@@ -65,6 +69,17 @@ class Actor:
         self.dist = D.Normal(np.zeros((2, 1)), 1.0)
         self.rnd = rnd
 
+        class Interrupting(D.Normal):
+            armed = False
+
+            def misfit(self, m):
+                if self.armed:
+                    self.armed = False
+                    raise KeyboardInterrupt
+                return super().misfit(m)
+
+        self.dist_int = Interrupting(np.zeros((2, 1)), 1.0)
+
     def sample(self, stage, overwrite, path=None):
         S, D, MM, Samples = _S()
         kw = dict(samples_filename=path or self.path, distribution=self.dist, proposals=4, overwrite_existing_file=overwrite, disable_progressbar=True)
@@ -76,8 +91,13 @@ class Actor:
         elif stage == "a":
             pool = INVALID_AFTER_COMMON + (INVALID_AFTER_HMC if self.kind == "HMC" else [])
             why, bad = self.rnd.choice(pool)
+            if getattr(self, "forced", None):
+                why, bad = [x for x in pool if x[0] == self.forced][0]
             if bad == "mass":
                 kw["mass_matrix"] = MM.Unit(5)
+            elif bad == "interrupt":
+                kw["distribution"] = self.dist_int
+                self.dist_int.armed = True
             elif bad is not None:
                 kw.update(bad)
         fn = kw.pop("samples_filename")
@@ -94,8 +114,12 @@ class Actor:
             return "exists", why
         except (AssertionError, ValueError, TypeError):
             return "rejected", why
+        except KeyboardInterrupt:
+            return ("rejected" if why == "interrupt-in-first-misfit" else "other:KeyboardInterrupt"), why
         except Exception as e:
             return f"other:{type(e).__name__}", why
+        finally:
+            self.dist_int.armed = False
 
     def open_write(self, overwrite, path=None):
         S, D, MM, Samples = _S()
@@ -152,7 +176,7 @@ OPS = ["Sv0", "Sv1", "Sb0", "Sb1", "Sa0", "Sa1", "W0", "W1", "C", "D", "P", "L"]
 NO_CONSENT = ["Sv0", "Sb0", "Sa0", "W0", "C", "D", "P", "L"]
 
 
-def run_sequence(rnd, ops, kind, npy, tmp, tag):
+def run_sequence(rnd, ops, kind, npy, tmp, tag, forced=None):
     """executes ops on a sampler that already produced the file; returns per-op observations"""
     path = os.path.join(tmp, f"f{tag}.{'npy' if npy else 'h5'}")
     side = path + ".pkl"
@@ -161,6 +185,7 @@ def run_sequence(rnd, ops, kind, npy, tmp, tag):
             os.remove(p)
     actor = Actor(rnd, kind, path, npy)
     first = actor.sample("v", False)  # the sampler has already produced the file
+    actor.forced = forced
     obs = []
     for op in ops:
         before = (sha(path), sha(side))
@@ -172,7 +197,8 @@ def run_sequence(rnd, ops, kind, npy, tmp, tag):
             res, why = actor.other(op), ""
         after = (sha(path), sha(side))
         obs.append({"op": op, "why": why, "result": res, "file_changed": before[0] != after[0], "sidecar_changed": before[1] != after[1],
-                    "file_exists": after[0] is not None, "sidecar_exists": after[1] is not None})
+                    "file_exists": after[0] is not None, "sidecar_exists": after[1] is not None,
+                    "file_existed": before[0] is not None, "sidecar_existed": before[1] is not None})
     # a following valid run with consent must succeed (no handle left open)
     final = actor.sample("v", True)[0]
     return first[0], obs, final
@@ -276,6 +302,119 @@ def paths_suite(rnd, N, findings):
     return sp
 
 
+def writers_suite(rnd, N, findings):
+    """a Samples writer used directly, and copies of it"""
+    import gc
+
+    S, D, MM, Samples = _S()
+    sw = Suite("C11.writers", "a Samples(path, mode='w') writer (HDF5 and NPY): appended columns, flushes, copy / deepcopy of the writer before, between and after the "
+               "appends, closing or dropping the copies, closing the owner: the columns on disk are always a prefix of what was appended, after the owner's close "
+               "they are exactly what was appended, and nothing done with a copy afterwards changes file or sidecar; vs model wrun; non-trivial = a copy closed or "
+               "dropped after the owner's close")
+    reqs, metas = [], []
+    with scratch() as tmp:
+        for ci in range(N):
+            npy = ci % 2 == 1
+            path = os.path.join(tmp, f"w{ci % 3}.{'npy' if npy else 'h5'}")
+            for q in (path, path + ".pkl"):
+                if os.path.exists(q):
+                    os.remove(q)
+            L = rnd.choice([3, 5, 8, 12])
+            ops, toks = [], []
+            closed, ncopies, nextcol = False, 0, 1
+            for _ in range(L):
+                c = rnd.choice("aaaafcck" if not closed else "kkc")
+                if c == "k" and ncopies == 0:
+                    c = "c"
+                if c == "a":
+                    k = rnd.choice([1, 1, 2, 30])
+                    for _ in range(k):
+                        ops.append(("a", nextcol)); toks.append(f"a {nextcol}"); nextcol += 1
+                    continue
+                if c == "c":
+                    ncopies += 1
+                if c == "k":
+                    ncopies -= 1
+                ops.append((c, rnd.choice(["copy", "deepcopy"]) if c == "c" else rnd.choice(["close", "drop"]) if c == "k" else None)); toks.append(c)
+                if rnd.random() < 0.25 and not closed:
+                    ops.append(("x", None)); toks.append("x"); closed = True
+            if not closed:
+                ops.append(("x", None)); toks.append("x"); closed = True
+            while ncopies > 0:
+                ops.append(("k", rnd.choice(["close", "drop"]))); toks.append("k"); ncopies -= 1
+            xk0 = [k for k, (c, _) in enumerate(ops) if c == "x"][0]
+            if not any(c == "a" for c, _ in ops[:xk0]):
+                # a writer that is closed without a single column leaves no readable file (C10: zero columns are not a samples file): at least one column
+                ops.insert(0, ("a", nextcol)); toks.insert(0, f"a {nextcol}")
+            # real run ----------------------------------------------------------------------------
+            obs, problems = [], []
+            try:
+                with quiet():
+                    w = Samples(path, mode="w", overwrite=False)
+                    copies = []
+                    final = None
+                    for k, (c, arg) in enumerate(ops):
+                        if c == "a":
+                            w.append(np.array([[float(arg)], [float(arg) + 0.5], [-float(arg)]]))
+                        elif c == "f":
+                            w.flush_buffer()
+                        elif c == "x":
+                            w.close()
+                        elif c == "c":
+                            copies.append(copy.copy(w) if arg == "copy" else copy.deepcopy(w))
+                        elif c == "k":
+                            v = copies.pop(rnd.randrange(len(copies)))
+                            if arg == "close":
+                                v.close()
+                            del v
+                            gc.collect()
+                        ondisk = None
+                        if getattr(w, "_closed", False):
+                            try:
+                                r = Samples(path)
+                                ondisk = np.array(r.numpy)[0, :].astype(int).tolist() if r.numpy.size else []
+                                r.close()
+                                del r
+                            except Exception as e:
+                                ondisk = f"unreadable: {type(e).__name__}: {e}"[:120]
+                            now = (sha(path), sha(path + ".pkl"))
+                            if final is not None and now != final:
+                                problems.append(f"op {k} ({c}{' ' + arg if arg else ''}) on a copy changed the {'file' if now[0] != final[0] else 'sidecar'} of the finished, closed writer")
+                            final = final or now
+                        obs.append(ondisk)
+            except Exception as e:
+                problems.append(f"raised {type(e).__name__}: {e}"[:200])
+            stim = {"backend": "npy" if npy else "h5", "ops": toks}
+            xk = [k for k, (c, _) in enumerate(ops) if c == "x"][0]
+            sw.case(stim, nontrivial=any(c == "k" for c, _ in ops[xk + 1:]), sample=stim if len(sw.samples) < 2 else None)
+            sw.count(f"backend={'npy' if npy else 'h5'}")
+            for c, _ in ops:
+                if c != "a":
+                    sw.count(f"op={c}")
+            want = [a for (c, a) in ops[:xk] if c == "a"]
+            for k, od in enumerate(obs):
+                if od is not None and od != want and not problems:
+                    problems.append(f"after op {k} the closed file holds columns {od if isinstance(od, str) else (len(od), od[:4])} but {len(want)} columns were appended before the close")
+            if problems:
+                findings.append(Finding("C11", "writer and copies: " + problems[0], {"kind": "writer-copies"}, {"oracle": "writer", "stimulus": stim, "problems": problems}))
+            reqs.append(f"c11.writer {len(toks)} {' '.join(toks)}")
+            metas.append((stim, ops, obs))
+    for (stim, ops, obs), ans in zip(metas, lean_batch(reqs)):
+        if not ans.startswith("ok "):
+            sw.disagree(stim, "model answer", ans, "driver rejected the history")
+            continue
+        for k, (od, part) in enumerate(zip(obs, ans[3:].split(" | "))):
+            closed, nfile, content = part.split(" ")[:3] if len(part.split(" ")) >= 3 else (part.split(" ") + [""])[:3]
+            if od is None:
+                continue
+            mfile = [int(x) for x in content.split(",") if x][: int(nfile)]
+            if closed != "1" or od != mfile:
+                sw.disagree(stim, {"closed": closed, "file": mfile[:6], "columns": len(mfile)}, {"file": od if isinstance(od, str) else od[:6], "columns": None if isinstance(od, str) else len(od)},
+                            f"file after op {k} differs from the model")
+                break
+    return sw
+
+
 def run(tier, seed):
     rnd = random.Random(279470273 * (seed + 11) % (1 << 31))
     thorough = tier == "thorough"
@@ -295,12 +434,25 @@ def run(tier, seed):
         for L in (1, 2, 3):
             for word in itertools.product(NO_CONSENT, repeat=L):
                 seqs.append(list(word))
+    # every way in which a start can fail after the file has been opened, once per sampler and back end per round: with consent, then operations without
+    forced = {}
+    allwhy = [w for w, _ in INVALID_AFTER_COMMON + INVALID_AFTER_HMC]
+    sweep = allwhy if thorough else [allwhy[(seed + j) % len(allwhy)] for j in range(4)] + ["progressbar-flag-array", "interrupt-in-first-misfit"]
+    for j, w in enumerate(sweep):
+        for i0 in range(4):
+            if w in [x for x, _ in INVALID_AFTER_HMC] and i0 % 2 == 0:
+                continue
+            forced[len(seqs)] = (w, i0)
+            seqs.append(["Sa1", rnd.choice(["P", "D", "L", "Sv0"]), rnd.choice(["Sv1", "W0", "P"])])
     reqs, metas = [], []
     with scratch() as tmp:
         for i, ops in enumerate(seqs):
             kind = "HMC" if i % 2 else "RWMH"
             npy = (i // 2) % 2 == 1
-            first, obs, final = run_sequence(rnd, ops, kind, npy, tmp, i % 4)
+            if i in forced:
+                kind, npy = ("HMC" if forced[i][1] % 2 else "RWMH"), (forced[i][1] // 2) % 2 == 1
+                st.count(f"forced failure after open: {forced[i][0]}")
+            first, obs, final = run_sequence(rnd, ops, kind, npy, tmp, i % 4, forced=forced.get(i, (None,))[0])
             stim = {"sampler": kind, "backend": "npy" if npy else "h5", "ops": ops, "why": [o["why"] for o in obs]}
             noconsent = all(o in NO_CONSENT for o in ops)
             st.case(stim, nontrivial=noconsent and any(o in ("Sv0", "Sa0", "W0", "C", "D", "P") for o in ops),
@@ -315,7 +467,7 @@ def run(tier, seed):
             consent_seen = False
             for k, o in enumerate(obs):
                 consent_seen = consent_seen or o["op"] in ("Sv1", "Sa1", "W1")
-                if not consent_seen and (o["file_changed"] or o["sidecar_changed"]):
+                if o["op"] not in ("Sv1", "Sa1", "W1") and ((o["file_changed"] and o["file_existed"]) or (o["sidecar_changed"] and o["sidecar_existed"])):
                     problems.append(f"operation {k} ({o['op']}{' ' + o['why'] if o['why'] else ''}) changed the existing "
                                     f"{'file' if o['file_changed'] else 'sidecar'} without overwrite consent")
                     break
@@ -349,7 +501,8 @@ def run(tier, seed):
                             o, f"operation {k} differs from the model")
                 break
     sp = paths_suite(rnd, 200 if thorough else 60, findings)
-    return [st, sp], findings
+    sw = writers_suite(random.Random(seed * 104729 + 11), 120 if thorough else 40, findings)
+    return [st, sp, sw], findings
 
 
 def search(tier, seed, broken):
